@@ -16,7 +16,8 @@ RULE = ("one process per (module, stream count): parsec_init(n, --mca mca_sched 
         "stream), get_next_task (next_task else module.select), AGAIN-reschedule with distance+1} with rings of 1..64 tasks in "
         "non-increasing priority, distances 0..3, + schedule bytes; run under dsched (switches only at atomic ops / hooked spins), "
         "then a sequential drain over all streams. oracle = each scheduling instance returned exactly once (checked at return), same VP, "
-        "nothing pending after the drain. non-trivial = a ring longer than the module's bounded local buffer (4n where the module has "
+        "nothing pending after the drain. multi-VP cases (labels multi_vp_*): V/N/C calls carry one ring per destination VP, F = module.schedule on stream 0 of "
+        "another VP, X may cross to the next VP when a VP has one stream; a task's VP is the VP of the stream it was handed to. non-trivial = a ring longer than the module's bounded local buffer (4n where the module has "
         "none) OR two threads' schedule calls onto the same target stream overlapped; distinct = distinct (programs, schedule) texts. "
         "exhaustive part = 2 streams, one op each from {S2,N2,N1d1,G,V2} x {0,2} tasks pre-queued, every interleaving with <= 2 preemptions. "
         "stress = free-running threads, same oracle with atomic per-task states")
@@ -60,7 +61,9 @@ def run(tier, seed, res):
                        "a stream's own schedule/select calls come from one thread (the stream's); foreign submissions target stream 0 of the VP "
                        "(__parsec_schedule_vp), as in this build's runtime; the next-stream target of __parsec_reschedule (GPU code only) is "
                        "generated too (C08_NEXT_TARGET=0 switches it off)",
-                       "single virtual process (flat map); tasks are harness-allocated and never freed during a process",
+                       "virtual processes: flat map (1 VP) and --mca runtime_vpmap rr:<nvp>:<tpv>:<cores> with nvp 2 or 3 (checked against context->nb_vp / "
+                       "nb_cores); foreign-VP submissions go to stream 0 of the destination VP (what __parsec_schedule_vp / __parsec_reschedule do); "
+                       "no module shares a queue across VPs, so 'same VP' is demanded strictly; tasks are harness-allocated and never freed during a process",
                        "sequential consistency at atomic-operation granularity under dsched; real parallelism only in the stress part",
                        "ltq stress runs without ASan unless C08_LTQ_ASAN_STRESS=1 (known use-after-free read in parsec_hbbuffer_pop_best)"]
     env_extra = {"C08_NEXT_TARGET": "1"} if NEXT_TARGET else {}
@@ -73,7 +76,8 @@ def run(tier, seed, res):
                                            "{S(2),VP-NULL(2),VP-NULL(1,d=1),select,VP-own(2)}; all interleavings with at most 2 preemptions")
     _collect(res, wr)
     # (2) rapidcheck programs + schedules, (module, n) per process
-    per = 80 if quick else 10000
+    per = 50 if quick else 7000          # single VP (flat map), n = 2, 3 streams
+    per_vp = 40 if quick else 5000       # several VPs: runtime_vpmap rr:2:2 (4 streams) and rr:3:1 (3 streams)
     jobs = []
     for i, m in enumerate(MODULES):
         if ONLY and m not in ONLY:
@@ -82,12 +86,16 @@ def run(tier, seed, res):
             e = {"RC_PARAMS": "seed=%d max_success=%d max_size=100" % (seed * 131 + i * 7 + n, per)}
             e.update(env_extra)
             jobs.append(dict(cmd=[san, "rc", m, str(n)], env=e, tag="rc:%s:%d" % (m, n), timeout=600 if quick else 7200))
+        for nvp, tpv in ((2, 2), (3, 1)):
+            e = {"RC_PARAMS": "seed=%d max_success=%d max_size=100" % (seed * 131 + i * 7 + 50 + nvp, per_vp)}
+            e.update(env_extra)
+            jobs.append(dict(cmd=[san, "rc", m, "0", str(nvp), str(tpv)], env=e, tag="rc:%s:%dx%d" % (m, nvp, tpv), timeout=600 if quick else 7200))
     wr = core.run_workers(PROP, jobs)
     res.absorb(wr, "rc")
     _collect(res, wr)
     # (3) stress
     T = 8 if quick else 16
-    iters = 4000 if quick else 600000
+    iters = 2000 if quick else 300000    # per process; every module gets a flat run and a multi-VP run
     jobs = []
     for i, m in enumerate(MODULES):
         if ONLY and m not in ONLY:
@@ -97,6 +105,9 @@ def run(tier, seed, res):
             b = hooks
             res.coverage.setdefault("labels", {})["stress:ltq_without_asan_known_uaf_excluded"] = 1
         jobs.append(dict(cmd=[b, "stress", m, str(T), str(iters), str(seed * 17 + i)], tag="stress:" + m, timeout=600 if quick else 7200))
+        nvp, tpv = ((2, 4) if i % 2 == 0 else (3, 3)) if quick else ((2, 8) if i % 2 == 0 else (3, 5))
+        jobs.append(dict(cmd=[b, "stress", m, "0", str(iters), str(seed * 17 + i + 100), str(nvp), str(tpv)], tag="stress:%s:%dx%d" % (m, nvp, tpv),
+                         timeout=600 if quick else 7200))
     wr = core.run_workers(PROP, jobs, max_parallel=4 if quick else 2)
     res.absorb(wr, "stress")
     _collect(res, wr)
